@@ -190,8 +190,17 @@ impl Property for C02 {
             _ => Some("-L".to_string()),
         };
         let follow_in_expr = follow_flag.is_none() && rng.chance(1, 6);
-        let mindepth = if rng.chance(1, 2) { Some(rng.urange(0, 5)) } else { None };
-        let maxdepth = if rng.chance(1, 2) { Some(rng.urange(0, 5)) } else { None };
+        let mut mindepth = if rng.chance(1, 2) { Some(rng.urange(0, 5)) } else { None };
+        let mut maxdepth = if rng.chance(1, 2) { Some(rng.urange(0, 5)) } else { None };
+        // bounds far beyond any tree: everything (as -maxdepth) or nothing (as -mindepth)
+        if rng.chance(1, 30) {
+            let huge = *rng.pick(&[255usize, 256, 65_536, 2_147_483_647, 2_147_483_648, 4_294_967_295, 4_294_967_296]);
+            if rng.chance(2, 3) {
+                maxdepth = Some(huge);
+            } else {
+                mindepth = Some(huge);
+            }
+        }
         // faults
         let fault_mode = rng.weighted(&[55, 25, 20]);
         let mut mutations = vec![];
